@@ -5,6 +5,7 @@ import Driver.Policy
 import Driver.Handlers
 import Driver.Version
 import Driver.Validate
+import Driver.ValidateCache
 import Driver.KeyedLock
 import Driver.CliConfig
 import Driver.RunLimit
@@ -37,6 +38,7 @@ def main (args : List String) : IO UInt32 := do
   | ["handlers"] => Drv.loop stdin Drv.Handlers.step (); return 0
   | ["version"] => Drv.loop stdin Drv.Version.step (); return 0
   | ["validate"] => Drv.loop stdin Drv.Validate.step (); return 0
+  | ["validatecache"] => Drv.loop stdin Drv.ValidateCache.step {}; return 0
   | ["keyedlock"] => Drv.loop stdin Drv.KeyedLock.step {}; return 0
   | ["cliconfig"] => Drv.loop stdin Drv.CliConfig.step (CliConfig.init CliConfig.srcCfg); return 0
   | ["runlimit"] => Drv.loop stdin Drv.RunLimit.step {}; return 0
